@@ -2,6 +2,7 @@ package rules
 
 import (
 	"go/ast"
+	"go/constant"
 	"go/token"
 	"go/types"
 
@@ -1086,4 +1087,137 @@ func sizeMinusCursorVars(a *ringAnch, f *fn, cur *types.Var) map[*types.Var]ast.
 		return true
 	})
 	return bounds
+}
+
+func init() {
+	register(&core.Rule{ID: "C09.13", Prop: "C09", MinSites: 12,
+		Desc: "what is handed out starts at the read cursor: every slice of rb.buf that serves as a source (returned view, copy source, argument of an external Write, append operand) begins at rb.r and ends at rb.r+k, rb.w, rb.size or the physical end – or is the wrapped second piece rb.buf[:k] / rb.buf[:rb.w], which appears only in functions that also hand out rb.buf[rb.r:]; single bytes are read at rb.buf[rb.r]; and Peek/peekAll assign their head result on every path that found the buffer non-empty",
+		Run:  runC09_13})
+	alias("C10", "C10.19", "C09.13", "elastic Peek/Read/WriteTo hand out ring.Buffer's views")
+	alias("C01", "C01.17", "C09.13", "what Next/Peek/Read give the handler from the inbound ring are ring.Buffer's views")
+}
+
+func runC09_13(c *core.Ctx) {
+	a := ringAnchors(c)
+	if a == nil {
+		return
+	}
+	for _, f := range a.funcs {
+		if f.Decl.Body == nil {
+			continue
+		}
+		// destinations: first argument of copy, argument of an external Read
+		dest := map[ast.Expr]bool{}
+		ast.Inspect(f.Decl.Body, func(n ast.Node) bool {
+			if call, ok := n.(*ast.CallExpr); ok {
+				if id, ok := call.Fun.(*ast.Ident); ok && id.Name == "copy" && len(call.Args) == 2 {
+					dest[ast.Unparen(call.Args[0])] = true
+				}
+				if sel, ok := ast.Unparen(call.Fun).(*ast.SelectorExpr); ok && sel.Sel.Name == "Read" && len(call.Args) == 1 {
+					dest[ast.Unparen(call.Args[0])] = true
+				}
+			}
+			if as, ok := n.(*ast.AssignStmt); ok {
+				for _, l := range as.Lhs {
+					dest[ast.Unparen(l)] = true // rb.buf[rb.w] = c
+				}
+			}
+			return true
+		})
+		type src struct {
+			e    ast.Expr
+			kind string
+		}
+		var srcs []src
+		hasTailView := false
+		ast.Inspect(f.Decl.Body, func(n ast.Node) bool {
+			switch x := n.(type) {
+			case *ast.SliceExpr:
+				if x.Low != nil && flow.FieldOf(f.Info, x.Low) == a.w {
+					return true // a view from the write cursor on is where a producer stores (C09.2, C09.8), whatever name it is given first
+				}
+				if flow.FieldOf(f.Info, x.X) == a.buf && !dest[ast.Expr(x)] {
+					srcs = append(srcs, src{x, "slice"})
+					if x.Low != nil && flow.FieldOf(f.Info, x.Low) == a.r && x.High == nil {
+						hasTailView = true
+					}
+				}
+			case *ast.IndexExpr:
+				if flow.FieldOf(f.Info, x.X) == a.buf && !dest[ast.Expr(x)] {
+					srcs = append(srcs, src{x, "index"})
+				}
+			}
+			return true
+		})
+		k := 0
+		for _, s := range srcs {
+			k++
+			good := false
+			switch x := s.e.(type) {
+			case *ast.IndexExpr:
+				good = flow.FieldOf(f.Info, x.Index) == a.r
+			case *ast.SliceExpr:
+				lowIsR := x.Low != nil && flow.FieldOf(f.Info, x.Low) == a.r
+				lowIsZero := x.Low == nil
+				if cv := flow.ConstOf(f.Info, x.Low); x.Low != nil && cv != nil && constant.Sign(cv) == 0 {
+					lowIsZero = true
+				}
+				switch {
+				case lowIsR:
+					switch {
+					case x.High == nil:
+						good = true
+					case flow.FieldOf(f.Info, x.High) == a.w, flow.FieldOf(f.Info, x.High) == a.size:
+						good = true
+					default:
+						// rb.r + k, possibly through a local (end := rb.r + m)
+						if be, ok := seeThroughAt(f, x.High, x).(*ast.BinaryExpr); ok && be.Op == token.ADD {
+							good = flow.FieldOf(f.Info, be.X) == a.r || flow.FieldOf(f.Info, be.Y) == a.r
+						}
+					}
+				case lowIsZero && x.High != nil:
+					good = hasTailView // the wrapped second piece; its length is C09.6's business
+				}
+			}
+			c.Check(good, f.Name, "source view #"+itoa(k)+" "+exprStr(s.e), s.e.Pos(), "starts at rb.r (or is the wrapped second piece)",
+				"bytes are handed out from `"+exprStr(s.e)+"`, which does not start at the read cursor (and is not the wrapped second piece that follows rb.buf[rb.r:]): the caller sees bytes that are not the front of the queue")
+		}
+		// Peek / peekAll: head assigned wherever the buffer was found non-empty
+		if n := nameOf(f.Obj); n == "Peek" || n == "peekAll" {
+			var headObj types.Object
+			if rl := f.Decl.Type.Results; rl != nil && len(rl.List) > 0 && len(rl.List[0].Names) > 0 {
+				headObj = f.Info.Defs[rl.List[0].Names[0]]
+			}
+			if headObj == nil {
+				continue // unnamed results: every return states its values
+			}
+			const (
+				fAssigned = 1 << iota
+				fEmpty
+			)
+			p := &flow.Problem{Must: true}
+			p.Node = func(b *flow.Block, i int, n ast.Node, in uint64) uint64 {
+				for _, l := range flow.Assigned(n) {
+					if flow.ObjOf(f.Info, l) == headObj {
+						in |= fAssigned
+					}
+				}
+				return in
+			}
+			p.Edge = func(e *flow.Edge, in uint64) uint64 {
+				if e.Cond != nil && e.Tag == nil && e.Sense && flow.FieldOf(f.Info, e.Cond) == a.isEmpty {
+					in |= fEmpty
+				}
+				return in
+			}
+			sol := f.Graph().Solve(p)
+			j := 0
+			sol.AtExit(func(b *flow.Block, facts uint64) {
+				j++
+				explicit := b.Return != nil && len(b.Return.Results) > 0
+				c.Check(explicit || facts&(fAssigned|fEmpty) != 0, f.Name, "head assigned before return #"+itoa(j), b.Return.Pos(), "a non-empty buffer yields its first segment",
+					nameOf(f.Obj)+" can return without having assigned its head result although the buffer was not found empty: the caller is told there is nothing to read while bytes are queued")
+			})
+		}
+	}
 }
